@@ -301,15 +301,16 @@ def rule_hashwrite(F, R):
     hf = X.hir("wirefilter_get_filter_hash")
     if hf:
         import sem
-        Sh = sem.Sem(X, hf, inline=False)
-        tw = [c for c in exprs(hf["body"], "Call") if norm(c.get("callee", "")) == "serde_json::ser::to_writer"]
-        w_arg = Sh.resolve(tw[0]["args"][0], Sh.root).node if tw else {}
+        Sh = sem.Sem(X, hf)
+        tws = [x for x in Sh.sites() if x.node.get("k") == "Call" and norm(x.node.get("callee", "")) == "serde_json::ser::to_writer"]
+        tw = [x.node for x in tws]
+        w_arg = Sh.resolve(tw[0]["args"][0], tws[0].frame).node if tw else {}
         ok = len(tw) == 1 and any(norm(c.get("callee", "")) == "HasherWrite" for c in exprs(w_arg, "Call")) and \
-            any(is_param(p, hf, 0) for p in exprs(tw[0]["args"][1], "Path"))
+            sem.param_index(Sh, tw[0]["args"][1], tws[0].frame) == 0
         R.check(ok, rule, "wirefilter_get_filter_hash", "the hash is computed over the filter's JSON serialization", where=hf["span"])
         wrapped = {local_name(p) for c in exprs(w_arg, "Call") if norm(c.get("callee", "")) == "HasherWrite" for p in exprs(c, "Path")} if tw else set()
         wrapped.discard(None)
-        fin = [c for c in exprs(hf["body"], "MethodCall") if c["m"] == "finish" and local_name(c["recv"]) in wrapped]
+        fin = [x.node for x in Sh.sites() if x.node.get("k") == "MethodCall" and x.node["m"] == "finish" and local_name(x.node["recv"]) in wrapped]
         R.check(len(fin) == 1, rule, "wirefilter_get_filter_hash", "returns the hasher's digest", where=hf["span"])
 
 
